@@ -497,7 +497,12 @@ func (w *World) execTx(st *Step) {
 		w.HarnessFail("undecodable tx: %v", err)
 		return
 	}
-	t := &TxCtx{StepIdx: w.StepIdx, Step: ts, Signer: ts.Signer, Msgs: msgs, Pre: w.Cur, BlockTime: w.curBlock.Time, SigFail: sigFail}
+	// the chain gets the messages as spelled; the checkers get a copy with canonical addresses
+	cmsgs, _, _ := decodeTx(ts)
+	for _, m := range cmsgs {
+		CanonMsg(m)
+	}
+	t := &TxCtx{StepIdx: w.StepIdx, Step: ts, Signer: ts.Signer, Msgs: cmsgs, Pre: w.Cur, BlockTime: w.curBlock.Time, SigFail: sigFail}
 	w.Stats.Txs++
 	if sigFail {
 		// rejected by (simulated) signature verification: never delivered.
